@@ -756,6 +756,13 @@ class Gen:
                 else:
                     idx = body_text.find(a['lit'], start)
                     endidx = idx
+                if idx < 0 and not a.get('optional') and a['k'] == 1 and '\\N' not in a['lit']:
+                    # the anchored statement itself was edited: fall back to the ONE line of the body that starts like
+                    # it (same statement head); the ghost text is inserted there and the approximation is reported
+                    fz = fuzzy_anchor(body_text, a['lit'])
+                    if fz is not None:
+                        idx = endidx = fz
+                        self.report.setdefault('fuzzy_anchors', []).append(dict(function=fnname, anchor=a['lit'], matched=body_text[fz:body_text.find('\n', fz)].strip()[:120]))
                 if idx < 0:
                     if a.get('optional'):
                         break
@@ -850,6 +857,29 @@ class Gen:
         with open(os.path.join(outdir, self.unit + '.map.json'), 'w') as f:
             json.dump(dict(lines=[o for _, o in self.out], report=self.report, ledger=self.ledger), f)
         return rs
+
+
+def fuzzy_anchor(body_text, lit):
+    """offset of the single line of body_text whose stripped text shares a long prefix with the (stripped) anchor
+    literal - at least its statement head (up to the first '=' or '(' inclusive) and at least 60% of it; None when
+    there is no such line or more than one"""
+    want = lit.strip()
+    if len(want) < 8:
+        return None
+    m = re.search(r'[=(]', want)
+    head = len(want[:m.end()]) if m else len(want.split(' ')[0])
+    need = max(head, int(0.6 * len(want)), 6)
+    cands = []
+    off = 0
+    for line in body_text.split('\n'):
+        st = line.strip()
+        k = 0
+        while k < len(st) and k < len(want) and st[k] == want[k]:
+            k += 1
+        if k >= need:
+            cands.append(off + (len(line) - len(line.lstrip())))
+        off += len(line) + 1
+    return cands[0] if len(cands) == 1 else None
 
 
 def opaque_audit_text(frag, meth):
